@@ -434,6 +434,11 @@ func main() {
 	if completed < nb {
 		inconclusiveExit(id, "not every child completed", exit)
 	}
+	for _, name := range cfg.Require {
+		if counters[name] <= 0 {
+			inconclusiveExit(id, "the monitors observed no '"+name+"' events: that part of the property was not exercised", exit)
+		}
+	}
 	floor := cfg.Floor
 	if floor < 2 {
 		floor = 2
